@@ -43,6 +43,14 @@ CLAIMS = {
         technique="TLA+ state machines of SparseBuilder and RLBuilder (SDSBuilder.BStep) with invariant BuilderOK model-checked; complete transition cover (valid and invalid calls from every reachable state) replayed on the real builders; long random histories validated by TLC",
         text="Both builders are specified as state machines whose refused calls leave the state unchanged. TLC explores every reachable builder state for universes <= 5 (6), capacities <= 3 (4), multiset or not, and run-length builders up to length 9 (14), and prints every call from every state - try_set/set/extend with every index 0..universe+1 and a huge one, set_len/try_set with positions around the current length and zero-length runs - reached by a shortest history and followed by a completion and the conversion. The harness compares the result (ok / error / documented panic), every observable (len, capacity, universe, next_index, is_full, is_multiset, is_empty, count_ones, count_zeros) after every call, whether the conversion succeeds, and the converted vector's set bits and maximal runs. Overflow / out-of-order refusals near usize::MAX come from GenCtor. Random histories of 100-700 calls with 20% invalid calls on universes up to 2^30 are validated by TLC.",
         design_ref="DESIGN.md section 6, C16"),
+    "C11": dict(
+        technique="TLA+ object machine (SDSConv: type, content, supports) - all conversion chains generated by TLC and paired with every generated content; the real result is compared with the structure built directly by the target type's own builder (==, bytes); large random chains validated by TLC",
+        text="TLC enumerates every conversion chain of length <= 3 over {plain, sparse, run-length} from every initial type (From and copy_bit_vec, same-type copies included); the harness pairs each chain with every content <= 7 bits (8 thorough) and a word/block boundary family, builds the initial object by rotating builder decompositions (raw / push / iterator; builder / try_set / extend; per run / bit at a time / split runs / set_len steps), and after every conversion compares length, count, set positions, equality with and byte-identical serialization to the directly built structure of the target type. Random chains on 2^17..2^19-bit contents are recorded and validated by TLC.",
+        design_ref="DESIGN.md section 6, C11"),
+    "C15": dict(
+        technique="TLA+ multiset reference semantics (MSRef); all small multisets generated by TLC and replayed by set/try_set/extend/try_from_iter; two-ended iterator cover over duplicates; large real multisets validated by TLC",
+        text="Every universe <= 5 (6) x every value sequence of <= 5 (6) values: non-decreasing ones (overfull included) are built by SparseBuilder::multiset + set, try_set, extend and try_from_iter (universe = last + 1) and every present-value answer (count_ones, saturating count_zeros, is_multiset, get, rank, select, select_iter, predecessor = last occurrence, successor = first occurrence) is compared for every argument incl. huge ones; one_iter and the bit iterator are compared forwards and backwards and under the complete transition cover of the iterator machine; sequences that are not non-decreasing must be refused. Recorded multisets with 50-5000 values, long duplicate runs at bucket boundaries, duplicates at 0 and universe-1, more values than the universe, validated by TLC.",
+        design_ref="DESIGN.md section 6, C15"),
 }
 
 NOT_YET = {}
